@@ -126,6 +126,38 @@ theorem negotiation_stuck_below_10 (n : Nat) :
       Or.inl ⟨1, rfl⟩
     exact hQ _ (hrun m _ h1)
 
+/-- Necessity of "within what the opener can pay": ideal fees 1000 / 2500 (≥ 100, within the
+    default 3× caps) but the opener can only pay 2000 sat: the non-opener's first counter-offer
+    (its ideal fee 2500) cannot be signed (`CreateCloseProposal`: "initiator cannot afford proposed
+    coop close fee") and the negotiation aborts after the first delivery, for ever. -/
+theorem negotiation_fails_over_budget (n : Nat) :
+    let s := Net.run (n + 1) (Net.start (mkNode 1000 3000 2000 true) (mkNode 2500 7500 2000 false))
+    s.failed = some .cannotAfford ∧ s.msg = none ∧ s.rcv.done = none ∧ s.snd.done = none := by
+  have h1 : (Net.step (Net.start (mkNode 1000 3000 2000 true) (mkNode 2500 7500 2000 false))).msg = none := rfl
+  simp only [Net.run]
+  rw [run_of_msg_none n h1]
+  exact ⟨rfl, rfl, rfl, rfl⟩
+
+/-- Necessity of "the opener's ideal fee is within its OWN cap": opener ideal 5000 with an
+    explicit cap 4000, other side 1000: the opener's first ratchet (4500) exceeds its cap and it
+    bails out (`ErrProposalExceedsMaxFee`) at the second delivery. -/
+theorem negotiation_fails_own_cap (n : Nat) :
+    let s := Net.run (n + 2) (Net.start (mkNode 5000 4000 100000 true) (mkNode 1000 3000 100000 false))
+    s.failed = some .exceedsMax ∧ s.msg = none ∧ s.rcv.done = none ∧ s.snd.done = none := by
+  have h1 : (Net.step (Net.step (Net.start (mkNode 5000 4000 100000 true)
+      (mkNode 1000 3000 100000 false)))).msg = none := rfl
+  simp only [Net.run]
+  rw [run_of_msg_none n h1]
+  exact ⟨rfl, rfl, rfl, rfl⟩
+
+/-- Necessity of "the other side's ideal fee is within the opener's cap": opener ideal 1000
+    (default cap 3000), other side 30000: the opener ratchets up 10 % per round and bails out
+    (`ErrProposalExceedsMaxFee`) at the 24th delivery, when its next offer would exceed 3000. -/
+theorem negotiation_fails_other_above_cap :
+    (Net.run 24 (Net.start (mkNode 1000 3000 1000000 true) (mkNode 30000 90000 1000000 false))).failed
+      = some .exceedsMax := by
+  decide
+
 /-! ## Both sides build the same transaction -/
 
 /--
@@ -150,6 +182,56 @@ theorem same_tx_both_sides (v : View) (r : CloseReq) :
     cases sanityErr (createCloseTx { rbf := v.taproot, customSeq := r.customSeq, customLock := r.customLock }
       v.localDust v.remoteDust our their r.localScript r.remoteScript r.lop r.rop).outs <;> rfl
 
+/-- every mirror view is a counterpart … -/
+theorem counterpart_mirror (v : View) : Counterpart v v.mirror := by
+  obtain ⟨lm, rm, cf, isInit, anchors, tap, ld, rd⟩ := v
+  refine ⟨rfl, rfl, rfl, rfl, rfl, ?_, ?_⟩ <;>
+    (simp only [creditedLocal, creditedRemote, openerCredit, View.mirror]; cases isInit <;> cases anchors <;> simp)
+
+/--
+`same_tx_counterpart` (generalises `same_tx_both_sides` to states with a pending `update_fee`):
+if the two sides' views agree on roles, channel type, dust limits and on the CREDITED sat balances
+(balance + commit fee + anchors for the opener) — the individual commit fees and opener balances
+may differ — they still build the same close transaction or fail with the same error.
+-/
+theorem same_tx_counterpart (v w : View) (h : Counterpart v w) (r : CloseReq) :
+    (closeProposal w r.mirror).map Prod.fst = (closeProposal v r).map Prod.fst := by
+  obtain ⟨hi, ha, ht, hld, hrd, hcl, hcr⟩ := h
+  have hpay : localPays w r.mirror = !localPays v r := by
+    obtain ⟨fee, ls, rs, lop, rop, payer, cs, cl⟩ := r
+    rcases payer with _ | p
+    · simp [localPays, CloseReq.mirror, hi]
+    · cases p <;> simp [localPays, CloseReq.mirror, Party.other]
+  have hfl : finalLocal w r.mirror = finalRemote v r := by
+    have : r.mirror.fee = r.fee := rfl
+    simp only [finalLocal, finalRemote, hpay, this]
+    simp only [creditedLocal, creditedRemote] at hcl
+    cases localPays v r <;> simp <;> omega
+  have hfr : finalRemote w r.mirror = finalLocal v r := by
+    have : r.mirror.fee = r.fee := rfl
+    simp only [finalLocal, finalRemote, hpay, this]
+    simp only [creditedLocal, creditedRemote] at hcr
+    cases localPays v r <;> simp <;> omega
+  unfold closeProposal
+  rw [coopCloseBalance_eq, coopCloseBalance_eq, hfl, hfr]
+  by_cases hneg : finalLocal v r < 0 ∨ finalRemote v r < 0
+  · have hneg' : finalRemote v r < 0 ∨ finalLocal v r < 0 := hneg.symm
+    simp [hneg, hneg']
+  · have hneg' : ¬ (finalRemote v r < 0 ∨ finalLocal v r < 0) := fun h => hneg h.symm
+    simp only [hneg, hneg', if_false]
+    have hopts : w.txOpts r.mirror = v.txOpts r := by
+      simp [View.txOpts, CloseReq.mirror, ht]
+    simp only [hopts, hld, hrd]
+    have hsw := createCloseTx_swap (v.txOpts r) v.localDust v.remoteDust (finalLocal v r)
+      (finalRemote v r) r.localScript r.remoteScript r.lop r.rop
+    have hm : createCloseTx (v.txOpts r) v.remoteDust v.localDust (finalRemote v r) (finalLocal v r)
+        r.mirror.localScript r.mirror.remoteScript r.mirror.lop r.mirror.rop =
+        createCloseTx (v.txOpts r) v.remoteDust v.localDust (finalRemote v r) (finalLocal v r)
+        r.remoteScript r.localScript r.rop r.lop := rfl
+    rw [hm, hsw]
+    cases sanityErr (createCloseTx (v.txOpts r) v.localDust v.remoteDust (finalLocal v r)
+      (finalRemote v r) r.localScript r.remoteScript r.lop r.rop).outs <;> rfl
+
 /-- the final balances correspond: B's "our" balance is A's "their" balance. -/
 theorem same_balances_both_sides (v : View) (r : CloseReq) :
     coopCloseBalance v.mirror.anchors v.mirror.isInit r.mirror.fee (toSat v.mirror.localMsat)
@@ -161,25 +243,45 @@ theorem same_balances_both_sides (v : View) (r : CloseReq) :
 
 /-! ## Each side is paid its exact balance
 
-`finalLocal v r` / `finalRemote v r` (Lemmas.lean) are what the property statement says the two
-parties are owed: sat balance (msat truncated) + commit fee + 2·330 sat anchors if opener −
-fee if paying party; `payerCredit` is the paying party's amount before the fee. -/
+`finalLocal v r` / `finalRemote v r`, `localPays`, `openerCredit`, `outValue`, `wantLocalOut`,
+`wantRemoteOut`, `wantOutCount` (Spec.lean) are written from the property statement, not from the
+model's functions: sat balance (msat truncated) + commit fee + 2·330 sat anchors if opener − fee
+if paying party (the named payer, else the opener); an output exists iff the owed amount reaches
+the OWNER's dust limit. -/
+
+/-- the payer rule of the specification: without an explicit payer the channel opener pays, an
+    explicit payer overrides it, and the two sides agree on who that is. -/
+theorem default_payer_is_opener (v : View) (r : CloseReq) :
+    (r.payer = none → localPays v r = v.isInit) ∧
+    (r.payer = some .local → localPays v r = true) ∧
+    (r.payer = some .remote → localPays v r = false) ∧
+    localPays v.mirror r.mirror = !localPays v r := by
+  refine ⟨fun h => by simp [localPays, h], fun h => by simp [localPays, h],
+    fun h => by simp [localPays, h], ?_⟩
+  obtain ⟨fee, ls, rs, lop, rop, payer, cs, cl⟩ := r
+  rcases payer with _ | p
+  · simp [localPays, View.mirror, CloseReq.mirror]
+  · cases p <;> simp [localPays, CloseReq.mirror, Party.other]
 
 /--
-`close_value`: whenever a close transaction is built, "our" reported balance is exactly what the
-property says the local party is owed, nobody's balance is negative, and the outputs are exactly
-— up to BIP 69 order, which holds — the local party's output iff its balance is at least ITS OWN
-dust limit and the remote party's output iff its balance is at least the remote dust limit
-(`partyOut`: value = the balance, or 0 for an OP_RETURN script in the RBF flow), with the
-sequence / locktime requested.
+`close_value`: whenever the model builds a close transaction, "our" reported balance is exactly
+what the local party is owed, nobody is owed a negative amount, and an output `x` is in the
+transaction iff it is the local party's output (owed amount ≥ the LOCAL dust limit, value = owed
+amount — 0 for an OP_RETURN script in the RBF flow —, paid to the local script) or the remote
+party's (same with the REMOTE dust limit); the number of outputs is exactly the number of
+parties at or above their own dust limit (so nothing is duplicated), they are in BIP 69 order,
+and sequence / locktime are as requested.
 -/
 theorem close_value (v : View) (r : CloseReq) (tx : CloseTx) (bal : Int)
     (h : closeProposal v r = .ok (tx, bal)) :
     bal = finalLocal v r ∧ 0 ≤ finalLocal v r ∧ 0 ≤ finalRemote v r ∧
-    tx.outs.Perm (partyOut (v.txOpts r) v.localDust (finalLocal v r) r.localScript r.lop ++
-                  partyOut (v.txOpts r) v.remoteDust (finalRemote v r) r.remoteScript r.rop) ∧
+    (∀ x, x ∈ tx.outs ↔ wantLocalOut v r x ∨ wantRemoteOut v r x) ∧
+    tx.outs.length = wantOutCount v r ∧
     SortedOuts tx.outs ∧ tx.outs ≠ [] ∧
-    tx.sequence = (v.txOpts r).sequence ∧ tx.lockTime = r.customLock.getD 0 := by
+    tx.sequence = (match r.customSeq with
+                   | some s => s
+                   | none => if v.taproot then 4294967293 else 4294967295) ∧
+    tx.lockTime = r.customLock.getD 0 := by
   unfold closeProposal at h
   rw [coopCloseBalance_eq] at h
   by_cases hneg : finalLocal v r < 0 ∨ finalRemote v r < 0
@@ -191,9 +293,22 @@ theorem close_value (v : View) (r : CloseReq) (tx : CloseTx) (bal : Int)
       simp only [Except.ok.injEq, Prod.mk.injEq] at h
       obtain ⟨h1, h2⟩ := h
       subst h1 h2
-      refine ⟨rfl, by omega, by omega, sortOuts_perm _, sortOuts_sorted _, ?_, rfl, rfl⟩
-      intro he
-      simp [sanityErr, he] at hs
+      have hperm := sortOuts_perm
+        (partyOut (v.txOpts r) v.localDust (finalLocal v r) r.localScript r.lop ++
+         partyOut (v.txOpts r) v.remoteDust (finalRemote v r) r.remoteScript r.rop)
+      refine ⟨rfl, by omega, by omega, ?_, ?_, sortOuts_sorted _, ?_, ?_, rfl⟩
+      · intro x
+        simp only [createCloseTx]
+        rw [hperm.mem_iff, List.mem_append, mem_partyOut, mem_partyOut]
+        simp only [wantLocalOut, wantRemoteOut, outValue, View.txOpts, Bool.and_eq_true]
+      · simp only [createCloseTx]
+        rw [hperm.length_eq, List.length_append]
+        by_cases ha : v.localDust ≤ finalLocal v r <;> by_cases hb : v.remoteDust ≤ finalRemote v r <;>
+          simp [partyOut, wantOutCount, ha, hb]
+      · intro he
+        simp [sanityErr, he] at hs
+      · simp only [createCloseTx, TxOpts.sequence, View.txOpts, maxRBFSequence, defaultSequence]
+        cases r.customSeq <;> rfl
 
 /-- value conservation: outputs + fee + (balances omitted as dust or zeroed for OP_RETURN) is
     exactly what the channel held: both sat balances + commit fee + anchors. -/
@@ -201,8 +316,8 @@ theorem close_conservation (v : View) (r : CloseReq) (tx : CloseTx) (bal : Int)
     (h : closeProposal v r = .ok (tx, bal)) :
     ∃ omitted : Int, 0 ≤ omitted ∧
       sumOuts tx.outs + r.fee + omitted =
-        toSat v.localMsat + toSat v.remoteMsat + v.commitFee + (if v.anchors then 2 * anchorSize else 0) := by
-  obtain ⟨_, hl, hr, _, _, _, _, _⟩ := close_value v r tx bal h
+        ((v.localMsat / 1000 : Nat) : Int) + ((v.remoteMsat / 1000 : Nat) : Int) + openerCredit v := by
+  obtain ⟨_, hl, hr, _, _, _, _, _, _⟩ := close_value v r tx bal h
   unfold closeProposal at h
   rw [coopCloseBalance_eq] at h
   have hneg : ¬ (finalLocal v r < 0 ∨ finalRemote v r < 0) := by omega
@@ -226,19 +341,16 @@ theorem close_conservation (v : View) (r : CloseReq) (tx : CloseTx) (bal : Int)
         - sumOuts (partyOut (v.txOpts r) v.remoteDust (finalRemote v r) r.remoteScript r.rop), by omega, ?_⟩
     simp only [createCloseTx, sumOuts_sort, sumOuts_append]
     unfold finalLocal finalRemote
-    cases v.isInit <;> cases payerOf _ r.payer <;>
-      simp only [if_true, if_false, Bool.false_eq_true, reduceCtorEq] <;> omega
+    cases v.isInit <;> cases localPays v r <;>
+      simp only [if_true, if_false, Bool.false_eq_true] <;> omega
 
 /-- outputs plus fee never exceed the channel capacity (whenever the two msat balances, the
     commit fee and the anchors fit in the capacity — which holds for every channel state). -/
 theorem close_within_capacity (v : View) (r : CloseReq) (tx : CloseTx) (bal capacity : Int)
-    (hcap : (v.localMsat : Int) + v.remoteMsat
-              + 1000 * (v.commitFee + (if v.anchors then 2 * anchorSize else 0)) ≤ 1000 * capacity)
+    (hcap : (v.localMsat : Int) + v.remoteMsat + 1000 * openerCredit v ≤ 1000 * capacity)
     (h : closeProposal v r = .ok (tx, bal)) :
     sumOuts tx.outs + r.fee ≤ capacity := by
   obtain ⟨om, hom, heq⟩ := close_conservation v r tx bal h
-  have h1 : 1000 * toSat v.localMsat ≤ v.localMsat := by unfold toSat; omega
-  have h2 : 1000 * toSat v.remoteMsat ≤ v.remoteMsat := by unfold toSat; omega
   omega
 
 /-- the close fails with "cannot afford" iff a balance would become negative … -/
@@ -266,11 +378,9 @@ theorem close_error_iff (v : View) (r : CloseReq) :
     party cannot pay the fee out of its credited balance. -/
 theorem afford_iff_payer (v : View) (r : CloseReq) (hcf : 0 ≤ v.commitFee) :
     (finalLocal v r < 0 ∨ finalRemote v r < 0) ↔ payerCredit v r < r.fee := by
-  have hl : 0 ≤ toSat v.localMsat := by unfold toSat; omega
-  have hr : 0 ≤ toSat v.remoteMsat := by unfold toSat; omega
-  unfold payerCredit finalLocal finalRemote anchorSize
-  cases v.isInit <;> cases v.anchors <;> cases payerOf _ r.payer <;>
-    simp only [if_true, if_false, Bool.false_eq_true, reduceCtorEq] <;> omega
+  unfold payerCredit finalLocal finalRemote openerCredit
+  cases v.isInit <;> cases v.anchors <;> cases localPays v r <;>
+    simp only [if_true, if_false, Bool.false_eq_true] <;> omega
 
 /-- the only other failure: both balances are below their owners' dust limits, so the
     transaction would have no outputs (`CheckTransactionSanity`). -/
@@ -379,6 +489,262 @@ theorem close_no_sanity_error (v : View) (r : CloseReq)
       · cases hs; simp
       · simp at hs
     · simp
+
+/-! ## Link between the negotiation model's `budget` and the transaction model -/
+
+/-- For the channel opener's view in the legacy flow (no explicit payer) with the other side's
+    balance at or above its dust limit: a proposal for fee `f ≥ 0` can be built iff `f` is at most
+    the opener's credited balance — the `budget` of `Node.propose`. -/
+theorem proposal_ok_iff_fee_le_budget (v : View) (r : CloseReq)
+    (hinit : v.isInit = true) (hp : r.payer = none) (hfee : 0 ≤ r.fee) (hcf : 0 ≤ v.commitFee)
+    (hrem : v.remoteDust ≤ ((v.remoteMsat / 1000 : Nat) : Int))
+    (hmax : ((v.localMsat / 1000 : Nat) : Int) + ((v.remoteMsat / 1000 : Nat) : Int)
+              + openerCredit v ≤ maxSatoshi) :
+    (∃ tx bal, closeProposal v r = .ok (tx, bal)) ↔
+      r.fee ≤ ((v.localMsat / 1000 : Nat) : Int) + openerCredit v := by
+  have hl : finalLocal v r = ((v.localMsat / 1000 : Nat) : Int) + openerCredit v - r.fee := by
+    simp [finalLocal, localPays, hp, hinit]
+  have hr : finalRemote v r = ((v.remoteMsat / 1000 : Nat) : Int) := by
+    simp [finalRemote, localPays, hp, hinit]
+  constructor
+  · rintro ⟨tx, bal, h⟩
+    have := (close_value v r tx bal h).2.1
+    omega
+  · intro hle
+    cases hres : closeProposal v r with
+    | ok p => exact ⟨p.1, p.2, rfl⟩
+    | error e =>
+      exfalso
+      cases e with
+      | afford =>
+        have := (close_error_iff v r).mp hres
+        have hcr : 0 ≤ openerCredit v := by unfold openerCredit; split <;> omega
+        omega
+      | noOutputs =>
+        have := (close_noOutputs_iff v r).mp hres
+        omega
+      | sanity =>
+        exact close_no_sanity_error v r (by omega) hres
+
+/-- … and when the other side is below its dust limit the threshold drops by the opener's own
+    dust limit (otherwise the transaction would have no outputs). -/
+theorem proposal_ok_iff_fee_le_budget_dust (v : View) (r : CloseReq)
+    (hinit : v.isInit = true) (hp : r.payer = none) (hfee : 0 ≤ r.fee)
+    (hld : 0 ≤ v.localDust)
+    (hrem : ((v.remoteMsat / 1000 : Nat) : Int) < v.remoteDust)
+    (hmax : ((v.localMsat / 1000 : Nat) : Int) + ((v.remoteMsat / 1000 : Nat) : Int)
+              + openerCredit v ≤ maxSatoshi) :
+    (∃ tx bal, closeProposal v r = .ok (tx, bal)) ↔
+      r.fee ≤ ((v.localMsat / 1000 : Nat) : Int) + openerCredit v - v.localDust := by
+  have hl : finalLocal v r = ((v.localMsat / 1000 : Nat) : Int) + openerCredit v - r.fee := by
+    simp [finalLocal, localPays, hp, hinit]
+  have hr : finalRemote v r = ((v.remoteMsat / 1000 : Nat) : Int) := by
+    simp [finalRemote, localPays, hp, hinit]
+  constructor
+  · rintro ⟨tx, bal, h⟩
+    have hv := close_value v r tx bal h
+    have hcnt := hv.2.2.2.2.1
+    have hne := hv.2.2.2.2.2.2.1
+    have : tx.outs.length ≠ 0 := by
+      intro h0; exact hne (List.length_eq_zero_iff.mp h0)
+    by_cases h1 : v.localDust ≤ finalLocal v r
+    · omega
+    · have h2 : ¬ v.remoteDust ≤ finalRemote v r := by omega
+      have h0 : wantOutCount v r = 0 := by simp [wantOutCount, h1, h2]
+      rw [h0] at hcnt
+      exact absurd hcnt this
+  · intro hle
+    cases hres : closeProposal v r with
+    | ok p => exact ⟨p.1, p.2, rfl⟩
+    | error e =>
+      exfalso
+      cases e with
+      | afford =>
+        have := (close_error_iff v r).mp hres
+        omega
+      | noOutputs =>
+        have := (close_noOutputs_iff v r).mp hres
+        omega
+      | sanity =>
+        exact close_no_sanity_error v r (by omega) hres
+
+/-! ## RBF co-op close: closer pays, both sides build the same transaction -/
+
+/-- an announced locktime of 0 is the same as no custom locktime. -/
+theorem closeProposal_lock_zero (v : View) (r : CloseReq) :
+    closeProposal v { r with customLock := some 0 } = closeProposal v { r with customLock := none } := by
+  have hc : ∀ ld rd our their ls rs lop rop,
+      createCloseTx (v.txOpts { r with customLock := some 0 }) ld rd our their ls rs lop rop =
+      createCloseTx (v.txOpts { r with customLock := none }) ld rd our their ls rs lop rop := by
+    intros; simp [createCloseTx, View.txOpts, partyOut, TxOpts.sequence]; rfl
+  simp only [closeProposal, hc]
+
+/--
+`rbf_same_tx`: if the closer (terms `t`, absolute fee `fee`) sends closing_complete with sig field
+`label` for transaction `tx`, then the closee — holding the mirror-image terms and receiving the
+announced locktime 0 (production: `Environment.BlockHeight` is never set) — passes its
+`RemoteCanPayFees` check, accepts exactly that sig field, and builds the SAME transaction, so the
+closer's signature verifies and the closee's signature completes the closer's transaction.
+-/
+theorem rbf_same_tx (t : RbfTerms) (fee : Int) (label : SigLabel) (tx : CloseTx) (bal : Int)
+    (h : rbfOffer t fee = .sent label tx bal) :
+    rbfAccept t.mirror fee label 0 = .ok tx := by
+  unfold rbfOffer at h
+  by_cases hpay : toSat t.v.localMsat < fee
+  · simp [hpay] at h
+  · simp only [hpay, if_false] at h
+    cases hcp : closeProposal t.v (rbfReq t fee .local none) with
+    | error e => simp [hcp] at h
+    | ok p =>
+      obtain ⟨tx', bal'⟩ := p
+      simp only [hcp, RbfOffer.sent.injEq] at h
+      obtain ⟨hlabel, htx, _⟩ := h
+      subst htx
+      have hs := same_tx_both_sides t.v (rbfReq t fee .local none)
+      rw [hcp] at hs
+      have hm : closeProposal t.mirror.v (rbfReq t.mirror fee .remote none) =
+          closeProposal t.v.mirror (rbfReq t fee .local none).mirror := rfl
+      have hz := closeProposal_lock_zero t.mirror.v (rbfReq t.mirror fee .remote none)
+      have hz' : closeProposal t.mirror.v (rbfReq t.mirror fee .remote (some 0)) =
+          closeProposal t.v.mirror (rbfReq t fee .local none).mirror := by
+        rw [← hm]; exact hz
+      unfold rbfAccept
+      have hpay' : ¬ toSat t.mirror.v.remoteMsat < fee := hpay
+      simp only [hpay', if_false, hz']
+      cases hmp : closeProposal t.v.mirror (rbfReq t fee .local none).mirror with
+      | error e => rw [hmp] at hs; cases hs
+      | ok q =>
+        rw [hmp] at hs
+        simp only [Except.map] at hs
+        have hq : q.1 = tx' := by injection hs
+        have hdust : (toSat t.mirror.v.localMsat < t.mirror.sdLocal) =
+            (toSat t.v.remoteMsat < t.sdRemote) := rfl
+        simp only [hdust]
+        by_cases hd : toSat t.v.remoteMsat < t.sdRemote
+        · simp only [hd, if_true] at hlabel
+          subst hlabel
+          simp [hd, hq]
+        · simp only [hd, if_false] at hlabel
+          by_cases hb : bal' < t.sdLocal
+          · simp only [hb, if_true] at hlabel
+            subst hlabel
+            simp [hd, hq]
+          · simp only [hb, if_false] at hlabel
+            subst hlabel
+            simp [hd, hq]
+
+/--
+`rbf_close_value`: in an RBF iteration the closer offers only a fee it can pay from its raw
+balance; the closer is owed its sat balance (+ commit fee + anchors if it opened the channel)
+minus the fee, the closee its sat balance (+ that credit if IT opened the channel) with no fee
+charged; each output is present iff the owed amount reaches the owner's own channel dust limit
+and carries exactly the owed amount; sequence is `MaxRBFSequence`, locktime 0.
+-/
+theorem rbf_close_value (t : RbfTerms) (fee : Int) (label : SigLabel) (tx : CloseTx) (bal : Int)
+    (h : rbfOffer t fee = .sent label tx bal) :
+    let closerOwed := ((t.v.localMsat / 1000 : Nat) : Int)
+                        + (if t.v.isInit then openerCredit t.v else 0) - fee
+    let closeeOwed := ((t.v.remoteMsat / 1000 : Nat) : Int)
+                        + (if t.v.isInit then 0 else openerCredit t.v)
+    fee ≤ ((t.v.localMsat / 1000 : Nat) : Int) ∧
+    bal = closerOwed ∧ 0 ≤ closerOwed ∧ 0 ≤ closeeOwed ∧
+    (∀ x, x ∈ tx.outs ↔
+        (t.v.localDust ≤ closerOwed ∧ x = ⟨closerOwed, t.localScript⟩) ∨
+        (t.v.remoteDust ≤ closeeOwed ∧ x = ⟨closeeOwed, t.remoteScript⟩)) ∧
+    tx.outs.length = (if t.v.localDust ≤ closerOwed then 1 else 0)
+                      + (if t.v.remoteDust ≤ closeeOwed then 1 else 0) ∧
+    tx.sequence = 4294967293 ∧ tx.lockTime = 0 := by
+  intro closerOwed closeeOwed
+  unfold rbfOffer at h
+  by_cases hpay : toSat t.v.localMsat < fee
+  · simp [hpay] at h
+  · simp only [hpay, if_false] at h
+    cases hcp : closeProposal t.v (rbfReq t fee .local none) with
+    | error e => simp [hcp] at h
+    | ok p =>
+      obtain ⟨tx', bal'⟩ := p
+      simp only [hcp, RbfOffer.sent.injEq] at h
+      obtain ⟨_, htx, hbal⟩ := h
+      subst htx hbal
+      have hv := close_value t.v (rbfReq t fee .local none) tx' bal' hcp
+      have hfl : finalLocal t.v (rbfReq t fee .local none) = closerOwed := by
+        simp [finalLocal, localPays, rbfReq, closerOwed]
+      have hfr : finalRemote t.v (rbfReq t fee .local none) = closeeOwed := by
+        simp [finalRemote, localPays, rbfReq, closeeOwed]
+      obtain ⟨h1, h2, h3, h4, h5, _, _, h8, h9⟩ := hv
+      rw [hfl] at h1 h2
+      rw [hfr] at h3
+      refine ⟨by unfold toSat at hpay; omega, h1, h2, h3, ?_, ?_, ?_, ?_⟩
+      · intro x
+        rw [h4 x]
+        unfold wantLocalOut wantRemoteOut outValue
+        rw [hfl, hfr]
+        simp [rbfReq]
+      · rw [h5]; simp only [wantOutCount, hfl, hfr]
+      · simpa [rbfReq, maxRBFSequence] using h8
+      · simpa [rbfReq] using h9
+
+/-- the sig field the closer picks, in terms of the RAW closee balance and script dust limits. -/
+theorem rbf_label (t : RbfTerms) (fee : Int) (label : SigLabel) (tx : CloseTx) (bal : Int)
+    (h : rbfOffer t fee = .sent label tx bal) :
+    (label = .closerOnly ↔ ((t.v.remoteMsat / 1000 : Nat) : Int) < t.sdRemote) ∧
+    (label = .closeeOnly ↔ ¬ ((t.v.remoteMsat / 1000 : Nat) : Int) < t.sdRemote ∧ bal < t.sdLocal) := by
+  unfold rbfOffer at h
+  by_cases hpay : toSat t.v.localMsat < fee
+  · simp [hpay] at h
+  · simp only [hpay, if_false] at h
+    cases hcp : closeProposal t.v (rbfReq t fee .local none) with
+    | error e => simp [hcp] at h
+    | ok p =>
+      obtain ⟨tx', bal'⟩ := p
+      simp only [hcp, RbfOffer.sent.injEq] at h
+      obtain ⟨hlabel, _, hbal⟩ := h
+      subst hbal
+      unfold toSat at hlabel
+      by_cases hd : ((t.v.remoteMsat / 1000 : Nat) : Int) < t.sdRemote
+      · rw [if_pos hd] at hlabel
+        subst hlabel
+        exact ⟨⟨fun _ => hd, fun _ => rfl⟩, ⟨(fun h => SigLabel.noConfusion h), fun h => absurd hd h.1⟩⟩
+      · rw [if_neg hd] at hlabel
+        by_cases hb : bal' < t.sdLocal
+        · rw [if_pos hb] at hlabel
+          subst hlabel
+          exact ⟨⟨(fun h => SigLabel.noConfusion h), fun h => absurd h hd⟩, ⟨fun _ => ⟨hd, hb⟩, fun _ => rfl⟩⟩
+        · rw [if_neg hb] at hlabel
+          subst hlabel
+          exact ⟨⟨(fun h => SigLabel.noConfusion h), fun h => absurd h hd⟩, ⟨(fun h => SigLabel.noConfusion h), fun h => absurd h.2 hb⟩⟩
+
+set_option maxRecDepth 8192 in
+/-- The sig-field label is NOT a function of the outputs actually present (settles the suspicion
+    in the notes, at model level; the harness counts the same on the real state machines): the
+    closee opened the channel, its raw balance 100 sat is below its script's dust limit 294, so
+    the closer labels the offer `closer_output_only`; but the transaction credits the commit fee
+    (2000) back to the closee, 2100 ≥ its channel dust limit 354, so BOTH outputs are present.
+    By `rbf_same_tx` the closee nevertheless builds the same transaction and accepts the label. -/
+example :
+    rbfOffer { v := { localMsat := 500000000, remoteMsat := 100000, commitFee := 2000, isInit := false,
+                      anchors := false, taproot := false, localDust := 354, remoteDust := 354 },
+               localScript := [0, 20, 1], remoteScript := [0, 20, 2], sdLocal := 294, sdRemote := 294 } 500 =
+      .sent .closerOnly { sequence := 4294967293, lockTime := 0,
+                          outs := [⟨2100, [0, 20, 2]⟩, ⟨499500, [0, 20, 1]⟩] } 499500 := by
+  rfl
+
+set_option maxRecDepth 8192 in
+/-- Latent (not reachable in production, where the announced locktime is always 0): if
+    `Environment.BlockHeight` were set, the closer would announce it as locktime while signing a
+    locktime-0 transaction, and the closee would build a different transaction. -/
+example :
+    let t : RbfTerms := { v := { localMsat := 500000000, remoteMsat := 400000000, commitFee := 2000,
+                                 isInit := true, anchors := false, taproot := false,
+                                 localDust := 354, remoteDust := 354 },
+                          localScript := [0, 20, 1], remoteScript := [0, 20, 2], sdLocal := 294, sdRemote := 294 }
+    (match rbfOffer t 500 with
+      | .sent label tx _ => some (label, tx.lockTime)
+      | _ => none) = some (.both, 0) ∧
+    (match rbfAccept t.mirror 500 .both 800000 with
+      | .ok tx' => some tx'.lockTime
+      | _ => none) = some 800000 := by
+  exact ⟨rfl, rfl⟩
 
 /-! ## The fee rules on the realistic domain (no int64 wrap-around below 2^60 sat) -/
 
